@@ -7,7 +7,8 @@ from .. import gen, model, ser
 from ..val import veq, clone, drop_nulls, strings_of, has_marker, is_directive_string, walk
 
 ID = 'C07'
-SIZES = {'quick': 20000, 'thorough': 1000000}
+SIZES = {'quick': 20000, 'thorough': 3000000}
+REQUIRED_EVENTS = ['marker_rejected', 'clean_success', 'outputs_scanned']
 RULE = ('layer chains (1-3 layers, edit-based) into which markers are injected at arbitrary positions: $required values and list '
         'entries, known directives in wrong positions or with wrong argument types, unknown and misspelt $words as keys and values, '
         'markers under $output:false, inside $encode subtrees, and in YAML anchors reused by alias (file sub-sample). The reference '
